@@ -10,7 +10,7 @@ META = {
              'with the byte length of every FDATA record; signature = (sorted (dtype, cast, ndim, user dimension class, '
              'user element-limit class), #frames); non-trivial when a channel is cast, 2-D or carries a user-supplied '
              'descriptor'),
-    'required_obs': {'quick': ['frame-checked', 'c08-cast', 'c08-width1-2d', 'c08-element-limit>dimension',
+    'required_obs': {'quick': ['c08-el-more-entries-small-first', 'frame-checked', 'c08-cast', 'c08-width1-2d', 'c08-element-limit>dimension',
                                'c08-user-dimension', 'c08-user-el-larger', 'c08-inconsistent-tried', 'c08-multi-frame',
                                'c08-shared-channel', 'c08-channel-in-no-frame', 'c08-struct-aligned', 'c08-struct-view', 'c08-dataset-name-overlap', 'c08-same-name-twice-in-frame', 'c08-channel-of-another-logical-file']},
     'assumptions': ['an inconsistent user-supplied dimension / element limit may be rejected; only successful writes '
@@ -138,6 +138,10 @@ def run_case(case):
                 classes.append('dim=')
             elif c < 0.4:
                 o['attrs']['element_limit'] = [per_row[0] + r.choice([0, 1, 5])]
+                if len(per_row) == 1 and r.random() < 0.3:
+                    # a limit with MORE entries than the dimension whose leading entries bound it
+                    o['attrs']['element_limit'] = o['attrs']['element_limit'] + [r.choice([1, 2, 10])]
+                    bump('c08-user-el-more-entries')
                 if o['attrs']['element_limit'][0] > per_row[0]:
                     bump('c08-user-el-larger')
                 classes.append('el>=')
@@ -148,8 +152,16 @@ def run_case(case):
                 classes.append('dim=,el>=')
             elif c < 0.6:
                 # inconsistent with the data: either rejected or the written file satisfies the relation
-                which = r.choice(['dim-wrong', 'el-small', 'rank'])
-                if which == 'dim-wrong':
+                which = r.choice(['dim-wrong', 'el-small', 'rank', 'el-more-entries-small-first', 'el-more-entries-small-first'])
+                if which == 'el-more-entries-small-first' and per_row[0] < 2:
+                    which = 'dim-wrong'
+                if which == 'el-more-entries-small-first':
+                    # more entries than the dimension, the first one too small although the PRODUCT is large enough
+                    first = r.randrange(1, per_row[0])
+                    rest = -(-per_row[0] // first) + r.choice([0, 1])
+                    o['attrs']['element_limit'] = [first, rest] if r.random() < 0.7 else [first, 1, rest]
+                    bump('c08-el-more-entries-small-first')
+                elif which == 'dim-wrong':
                     o['attrs']['dimension'] = [per_row[0] + 1]
                 elif which == 'el-small':
                     if per_row[0] > 1:
